@@ -283,6 +283,11 @@ func CheckMain(root, id, tier string, seed uint64) int {
 	}
 	o := &orchOpts{root: root, prop: p, tier: tier, seed: seed, workers: ncpu, secs: secs}
 	os.MkdirAll(filepath.Join(root, ".build"), 0o755) //nolint:errcheck
+	if stale, _ := filepath.Glob(filepath.Join(root, ".build", "run-"+id+"-*")); len(stale) > 0 {
+		for _, d := range stale {
+			os.RemoveAll(d) // left behind by an interrupted run of the same check
+		}
+	}
 	dir, err := os.MkdirTemp(filepath.Join(root, ".build"), "run-"+id+"-")
 	if err != nil {
 		fmt.Fprintln(os.Stderr, err)
